@@ -59,7 +59,35 @@ struct Job {
     direct_poly: bool,
     data_seed: u64,
     lose_seed: u64,
+    /// this thread's first shard is produced lazily: its `as_ref()` blocks until the partner thread has opened the gate
+    gate_wait: Option<Arc<Gate>>,
+    /// this thread opens the partner's gate once its own job is done
+    gate_open: Option<Arc<Gate>>,
 }
+
+/// A rendezvous between two threads' caller code (not between their codecs, which stay independent).
+struct Gate {
+    open: shuttle::sync::Mutex<bool>,
+    cv: shuttle::sync::Condvar,
+}
+
+/// A shard that is produced on demand by another thread (a two-level code, a pipeline stage): `as_ref()` waits for it.
+struct LazyShard<'a> {
+    gate: &'a Gate,
+    data: &'a [u8],
+}
+
+impl AsRef<[u8]> for LazyShard<'_> {
+    fn as_ref(&self) -> &[u8] {
+        let mut open = self.gate.open.lock().unwrap();
+        while !*open {
+            open = self.gate.cv.wait(open).unwrap();
+        }
+        self.data
+    }
+}
+
+static P_LAZY: AtomicU64 = AtomicU64::new(0);
 
 fn draw_job(rng: &mut impl Rng) -> Job {
     let mut engine = rng.gen_range(0..5usize);
@@ -79,6 +107,8 @@ fn draw_job(rng: &mut impl Rng) -> Job {
         direct_poly: rng.gen_range(0..5u32) == 0,
         data_seed: rng.gen(),
         lose_seed: rng.gen(),
+        gate_wait: None,
+        gate_open: None,
     }
 }
 
@@ -130,8 +160,15 @@ fn me() -> shuttle::thread::ThreadId {
 
 fn encode_round<E: Engine + 'static, T: RateEncoder<E>>(enc: &mut T, job: &Job, round: usize) -> Vec<Vec<u8>> {
     let originals = originals_of(job, round);
-    for o in &originals {
-        enc.add_original_shard(o).unwrap_or_else(|e| violation(format!("add_original_shard failed: {e:?} ({job_desc})", job_desc = desc(job))));
+    for (i, o) in originals.iter().enumerate() {
+        let res = match (&job.gate_wait, i, round) {
+            (Some(gate), 0, 0) => {
+                P_LAZY.fetch_add(1, Ordering::Relaxed);
+                enc.add_original_shard(LazyShard { gate, data: o })
+            }
+            _ => enc.add_original_shard(o),
+        };
+        res.unwrap_or_else(|e| violation(format!("add_original_shard failed: {e:?} ({job_desc})", job_desc = desc(job))));
     }
     let result = enc.encode().unwrap_or_else(|e| violation(format!("encode failed: {e:?} ({})", desc(job))));
     let got: Vec<Vec<u8>> = result.recovery_iter().map(<[u8]>::to_vec).collect();
@@ -351,8 +388,15 @@ fn run_rs(job: &Job, tx: &shuttle::sync::mpsc::Sender<Continuation>) {
     let mut enc = ReedSolomonEncoder::new(job.k, job.r, job.b).unwrap_or_else(|e| violation(format!("ReedSolomonEncoder::new failed: {e:?}")));
     for round in 0..job.rounds {
         let originals = originals_of(job, round);
-        for o in &originals {
-            enc.add_original_shard(o).unwrap_or_else(|e| violation(format!("add_original_shard failed: {e:?}")));
+        for (i, o) in originals.iter().enumerate() {
+            let res = match (&job.gate_wait, i, round) {
+                (Some(gate), 0, 0) => {
+                    P_LAZY.fetch_add(1, Ordering::Relaxed);
+                    enc.add_original_shard(LazyShard { gate, data: o })
+                }
+                _ => enc.add_original_shard(o),
+            };
+            res.unwrap_or_else(|e| violation(format!("add_original_shard failed: {e:?}")));
         }
         let recovery: Vec<Vec<u8>> = {
             let result = enc.encode().unwrap_or_else(|e| violation(format!("encode failed: {e:?}")));
@@ -418,8 +462,15 @@ fn scenario() {
             j
         })
         .collect();
+    let mut jobs = jobs;
     if crowd {
         P_CROWDS.fetch_add(1, Ordering::Relaxed);
+    } else if rng.gen_range(0..4u32) == 0 {
+        // thread 0's first shard is produced by thread 1: caller code of one thread waits for another thread whose
+        // own codec work must not be held up by that
+        let gate = Arc::new(Gate { open: shuttle::sync::Mutex::new(false), cv: shuttle::sync::Condvar::new() });
+        jobs[0].gate_wait = Some(gate.clone());
+        jobs[1].gate_open = Some(gate);
     }
     let (tx, rx) = shuttle::sync::mpsc::channel::<Continuation>();
     let rx = Arc::new(shuttle::sync::Mutex::new(rx));
@@ -430,6 +481,10 @@ fn scenario() {
         handles.push(shuttle::thread::spawn(move || {
             PARKED_EARLY.with(|p| p.borrow_mut().clear());
             run_job(&job, &tx);
+            if let Some(gate) = &job.gate_open {
+                *gate.open.lock().unwrap() = true;
+                gate.cv.notify_all();
+            }
             drop(tx);
             // finish rounds other threads handed over (objects moved between threads mid-round)
             loop {
@@ -639,6 +694,7 @@ fn cmd_worker(map: &BTreeMap<String, String>) -> i32 {
         .with("crowds", J::u(P_CROWDS.load(Ordering::Relaxed)))
         .with("direct_poly", J::u(P_DIRECT_POLY.load(Ordering::Relaxed)))
         .with("parked", J::u(P_PARKED.load(Ordering::Relaxed)))
+        .with("lazy", J::u(P_LAZY.load(Ordering::Relaxed)))
         .with("engines", engines);
     let code = match res {
         Ok(()) => 0,
@@ -791,7 +847,7 @@ fn cmd_check(map: &BTreeMap<String, String>) -> i32 {
         .with("scheduling_steps", J::u(sum("steps")))
         .with("runs_per_hour", J::u(if wall > 0.0 { (execs as f64 / wall * 3600.0) as u64 } else { 0 }))
         .with("faults_fired", J::obj().with("F12.context_switches", J::u(sum("context_switches"))).with("F12.preemptions", J::u(sum("preemptions"))).with("object_handed_over_mid_round", J::u(sum("handovers"))))
-        .with("probes", J::obj().with("encode_rounds", J::u(sum("encode_rounds"))).with("decode_rounds", J::u(sum("decode_rounds"))).with("round_finished_by_a_different_thread", J::u(sum("finished_by_other"))).with("executions_with_17_to_24_threads", J::u(sum("crowds"))).with("threads_starting_with_a_direct_eval_poly_call", J::u(sum("direct_poly"))).with("codecs_left_in_thread_local_storage_at_thread_exit", J::u(sum("parked"))).with("threads_per_engine", engines))
+        .with("probes", J::obj().with("encode_rounds", J::u(sum("encode_rounds"))).with("decode_rounds", J::u(sum("decode_rounds"))).with("round_finished_by_a_different_thread", J::u(sum("finished_by_other"))).with("executions_with_17_to_24_threads", J::u(sum("crowds"))).with("threads_starting_with_a_direct_eval_poly_call", J::u(sum("direct_poly"))).with("codecs_left_in_thread_local_storage_at_thread_exit", J::u(sum("parked"))).with("shards_whose_as_ref_waits_for_another_thread", J::u(sum("lazy"))).with("threads_per_engine", engines))
         .with("components", J::obj().with("real", J::Arr(vec![J::s("all codecs, engines and table initialisers of /repo, built through the shadow manifest with --cfg verif_shuttle")])).with("stub", J::Arr(vec![J::s("std::sync::LazyLock replaced by hook H4's shim (a shuttle Once that is fresh in every execution, so every execution runs the real initialisers again under its own schedule; the table built is compared byte for byte with the one a sequential warm-up execution built, which is also the one kept for the process); threads / mpsc / Mutex of the scenario are shuttle's")])))
         .with("exhaustive", J::Bool(false));
     let evidence = J::obj()
